@@ -74,10 +74,18 @@ def gen_geom_case(ch: Chooser, tier: str, prop: str, *, poles: str = "maybe") ->
             dx = ch.pick([1, 2, 3, 5])
             x0, y0 = ch.rint(-10, 10), ch.rint(-8, 8)
             src = g.sig_leaf()
-            body = [["place", "lamp", "small-lamp",
-                     ["bin", "+", ["bin", "*", ["var", "it"], ["lit", dx, 10]], ["lit", x0, 10]],
-                     ["lit", y0, 10], None],
-                    ["enable", "lamp", ["bin", ch.pick([">", ">=", "==", "<"]), src, ["var", "it"]]]]
+            xexpr = ["bin", "+", ["bin", "*", ["var", "it"], ["lit", dx, 10]], ["lit", x0, 10]]
+            pre = []
+            if not big and ch.chance(1, 2):
+                # the coordinate goes through an iteration-local int (a constant the compiler holds
+                # as a value, not as a literal): `int col = it * dx; place(.., col + x0, ..)`; the
+                # first iteration of the 0-based loop makes one operand exactly 0
+                pre = [["decl", "int", "col", ["bin", "*", ["var", "it"], ["lit", dx, 10]]]]
+                xexpr = ["bin", ch.pick(["+", "-"]), ["var", "col"], ["lit", x0, 10]]
+                if xexpr[1] == "-":
+                    xexpr[3] = ["lit", -x0, 10]
+            body = pre + [["place", "lamp", "small-lamp", xexpr, ["lit", y0, 10], None],
+                          ["enable", "lamp", ["bin", ch.pick([">", ">=", "==", "<"]), src, ["var", "it"]]]]
             c.stmts.append(["for", "it", ["range", ["lit", 0, 10], ["lit", n, 10], None], body])
             for i in range(n):
                 occ.take("small-lamp", x0 + i * dx, y0)
